@@ -57,7 +57,29 @@ func load(src string) (Transcript, bool) {
 		return Transcript{}, false
 	}
 	t.Out = string(t.OutB)
+	t.markHuge()
 	return t, true
+}
+
+// MaxPrint is the longest single print gc is trusted with: the runtime writes a printed string
+// with one write system call and does not continue a short write (a write to a pipe longer than
+// its buffer is cut when a preemption signal arrives), so longer lines can be truncated by gc
+// itself. A transcript with a longer line is marked Fatal and the program is outside the domain.
+const MaxPrint = 32 << 10
+
+func (t *Transcript) markHuge() {
+	if t.Fatal != "" {
+		return
+	}
+	n := 0
+	for i := 0; i < len(t.Out); i++ {
+		if t.Out[i] == '\n' {
+			n = 0
+		} else if n++; n > MaxPrint {
+			t.Fatal = "output line too long: gc may truncate it"
+			return
+		}
+	}
 }
 
 func store(src string, t Transcript) {
@@ -88,8 +110,9 @@ func goEnv() []string {
 }
 
 // parse splits the stderr of a run into printed output and panic text.
-func parse(stderr string, exit int) Transcript {
-	t := Transcript{Exit: exit}
+func parse(stderr string, exit int) (t Transcript) {
+	defer t.markHuge()
+	t = Transcript{Exit: exit}
 	if i := strings.Index(stderr, "fatal error: "); i >= 0 && (i == 0 || stderr[i-1] == '\n') {
 		t.Out = stderr[:i]
 		t.Fatal = firstLine(stderr[i:])
@@ -263,9 +286,16 @@ func Run(sources []string) ([]Transcript, error) {
 // programs may import (see gen/gopkgs.HostPackage for the Scriggo side).
 const HostSource = `package host
 
-import "runtime"
-
-func Yield() { runtime.Gosched() }
+// Yield is a scheduling point. It does not call runtime.Gosched because the package must not
+// import anything: gc initialises packages in import path order among those whose imports are
+// initialised, and a dependency on the standard library would move this package, and the
+// packages importing it, after the generated packages without imports ("gcbatch/..." sorts
+// before "internal/..." and "runtime"); a native package of Scriggo is always initialised.
+func Yield() {
+	c := make(chan struct{})
+	go func() { close(c) }()
+	<-c
+}
 
 var Counter int
 
@@ -292,7 +322,7 @@ func moduleKey(files map[string]string) string {
 	}
 	sortStrings(names)
 	var b strings.Builder
-	b.WriteString("module/v1\x00")
+	b.WriteString("module/v2\x00" + HostSource + "\x00")
 	for _, n := range names {
 		b.WriteString(n + "\x00" + files[n] + "\x00")
 	}
